@@ -13,7 +13,9 @@ Trusted / data, not proved here
   * `torch.fft.rfft/irfft` ≡ the DFT (section 3a proves that the model's `rfftRe/rfftIm/irfftOddDef` ARE the
     complex DFT / inverse DFT of the Hermitian extension; that torch implements them is trusted and
     spot-checked by the harness),
-  * the Legendre factor `P b i` (`o3.Legendre`, sympy-generated) and the Wigner matrices `D` are DATA,
+  * in THIS file the Legendre factor `P b i` (`o3.Legendre`, sympy-generated) and the Wigner matrices `D` are DATA (parameters);
+    `Props/C11Leg.lean` / `Props/C11Ang.lean` instantiate `P` with the table regenerated from `o3.Legendre`'s FX graph and discharge
+    `KRExact` for band limits ≤ 11,
   * `KRExact` (exactness of the beta quadrature on products of Legendre factors up to the band limit) is a
     HYPOTHESIS of the round-trip theorems (`…_partial`), checked numerically per configuration by the harness.
     Section 5b proves its quadrature half for ALL resolutions (`quadrature_exact`), reduces the rest to a
